@@ -197,7 +197,11 @@ func runC12(c c12Case) Result {
 				// the output path already exists and is longer than what will be written (a re-run over an older file)
 				os.WriteFile(out, bytes.Repeat([]byte{0xAA}, refLen+1000), 0o644)
 			}
-			r := runCLI(900*time.Second, nil, []string{"GOMAXPROCS=" + gmp}, sub, "--mode", c.Mode, "--output", out, "--tree-depth", fmt.Sprint(c.Depth), "--batch-size", fmt.Sprint(c.Batch))
+			cliEnv := []string{"GOMAXPROCS=" + gmp}
+			if (c.Depth+c.Batch)%2 == 0 {
+				cliEnv = append(cliEnv, "VERIF_CLEAN_ENV=1") // half of the fresh processes get a scrubbed environment
+			}
+			r := runCLI(900*time.Second, nil, cliEnv, sub, "--mode", c.Mode, "--output", out, "--tree-depth", fmt.Sprint(c.Depth), "--batch-size", fmt.Sprint(c.Batch))
 			if r.ExitCode != 0 {
 				return bad(class, "cli-"+sub+":exit", "%s: exit %d: %s", triple, r.ExitCode, tail(r.Stderr, 300))
 			}
